@@ -248,6 +248,17 @@ func removeNodes[T any](nodes []*node[T], pattern string) []*node[T] {
 	return nodes
 }
 
+// 从 nodes 中删除节点 n 本身
+//
+// 兄弟节点的 segment.Value 可能相同（比如同一文本先作为正则后作为拦截器注册，类型不同的节点不会合并），
+// 删除某个特定的节点时不能按内容查找。
+func removeNode[T any](nodes []*node[T], n *node[T]) []*node[T] {
+	if index := slices.Index(nodes, n); index >= 0 {
+		return slices.Delete(nodes, index, index+1)
+	}
+	return nodes
+}
+
 // 将节点 n 从 pos 位置进行拆分。后一段作为当前段的子节点，并返回当前节点。
 // 若 pos 大于或等于 n.pattern 的长度，则直接返回 n 不会拆分，pos 处的字符作为子节点的内容。
 //
@@ -261,7 +272,7 @@ func splitNode[T any](n *node[T], pos int) (*node[T], error) {
 	if p == nil {
 		panic("节点必须要有一个有效的父节点，才能进行拆分")
 	}
-	p.children = removeNodes(p.children, n.segment.Value) // 先从父节点中删除老的 n
+	p.children = removeNode(p.children, n) // 先从父节点中删除老的 n
 
 	segs, err := n.segment.Split(n.root.interceptors, pos)
 	if err != nil {
